@@ -26,6 +26,7 @@ use vstd::std_specs::cmp::OrdSpec;
 //@map /Mutex<NodeState>/ => VxMutex<NodeState>
 //@map /Mutex::new\(/ => VxMutex::new(
 //@map /Vec<Allowable>/ => Vec<VxAllowable>
+//@map /&Box<dyn Policy>/ => &VxPolicy
 //@map /Vec<\(Vec<u8>, PaymentState\)>/ => Vec<VxInvoiceEntry>
 verus! {
 
@@ -108,6 +109,11 @@ impl VelocityControl {
 //@fn vls-core/src/util/velocity.rs :: impl VelocityControl :: update_spec mode=trusted
 //@include frag/c/vc_update_spec.rs
 //@end
+//@fn vls-core/src/util/velocity.rs :: impl VelocityControl :: new mode=trusted
+    ensures
+        vc_wf(r), r.start_sec == 0, spec_matches_spec(r, spec),
+        r.buckets@ == zeros(spec_triple(spec).2 as nat),
+//@end
 }
 
 impl NodeState {
@@ -136,6 +142,14 @@ impl NodeState {
 } // impl NodeState
 
 impl Node {
+
+// fresh controls for a brand-new node (Node::new); a restart must not use them for restored state
+//@fn vls-core/src/node.rs :: impl Node :: make_velocity_control props=C12
+    ensures spec_matches_spec(r, policy_global_vc(*policy)), r.start_sec == 0, r.buckets@ == zeros(spec_triple(policy_global_vc(*policy)).2 as nat),
+//@end
+//@fn vls-core/src/node.rs :: impl Node :: make_fee_velocity_control props=C12
+    ensures spec_matches_spec(r, policy_fee_vc(*policy)), r.start_sec == 0, r.buckets@ == zeros(spec_triple(policy_fee_vc(*policy)).2 as nat),
+//@end
 
 //@fn vls-core/src/node.rs :: impl Node :: new_full props=C12,C11,C15
     requires vc_wf(state.velocity_control), vc_wf(state.fee_velocity_control),
